@@ -39,6 +39,7 @@ PROP = {
         "assumptions": ["scanner models tied by correspondence (not regenerated); table regenerated from pkg/digest/crc16.go",
                         "every slot-computing call site goes through KeyToSlot/hash (call-site list compared with expectation)"],
     "driver": "drv_C11",
+    "gens": ["crc16", "slotsites"],
 }
 
 MANIFEST = {
